@@ -2,6 +2,8 @@ import UtilModel.RefCount.Props
 import UtilModel.RefCount.ObsC09
 import UtilModel.RefCount.ObsNoPanic
 import UtilModel.RefCount.Proofs7
+import UtilModel.RefCount.ObsProg
+import UtilModel.RefCount.ConsLift
 open UtilModel UtilModel.RefCount
 #print axioms UtilModel.accepts_sound
 #print axioms UtilModel.accepted_satisfies
@@ -17,3 +19,7 @@ open UtilModel UtilModel.RefCount
 #print axioms RefCount.reachable_thinv
 #print axioms RefCount.api_not_stuck
 #print axioms RefCount.no_panic_obs
+#print axioms RefCount.run_back
+#print axioms RefCount.progress_obs
+#print axioms RefCount.c09_obs
+#print axioms RefCount.Cons.c09c_obs
